@@ -30,7 +30,8 @@ int main(void) {
 			uint64_t st = os_atomic_load2o(dl, dq_state, relaxed);
 			printf(" %" PRIu64 " %u %d", st, (unsigned)dl->dq_side_suspend_cnt, ran);
 		}
-		if (pos >= 0) { for (int k = 0; k < 2000 && !ran; k++) usleep(1000); }
+		// only a queue that never runs the item waits this out (30 s of 1 ms naps: not a timing window on a correct library)
+		if (pos >= 0) { for (int k = 0; k < 30000 && !ran; k++) usleep(1000); }
 		printf(" | %d\n", ran);
 		fflush(stdout);
 		// the queue is deliberately leaked: releasing a suspended object is a client crash
